@@ -173,10 +173,14 @@ def judge_srv(meta, ev, st):
 def judge_cli(meta, ev, st):
     out = []
     pb = G.peer_bytes(ev)
-    data, eof, _err = pb.get(100, (b"", False, False))
+    reuse = bool(meta.get("reuse"))
+    # reuse histories: request 0 is the second one made on the connection object; it travels on the second accepted connection
+    data, eof, _err = pb.get(101 if reuse else 100, (b"", False, False))
+    if reuse:
+        st["reuse_after_partial_write"] = st.get("reuse_after_partial_write", 0) + 1
     rets = [int(e[2]) for e in ev if e[0] == "rqh"]
     hs = [(G.unhx(a), G.unhx(b)) for a, b, _f in meta["hdrs"]]
-    mk = [e for e in ev if e[0] == "mk" and len(e) > 2 and e[2].startswith("ret=")]
+    mk = [e for e in ev if e[0] == "mk" and len(e) > 2 and e[1] == "0" and e[2].startswith("ret=")]
     if len(rets) != len(hs) or not mk:
         return [("harness", "incomplete trace")]
     if mk[0][2] != "ret=0":
@@ -215,7 +219,7 @@ def judge(meta, ev, st):
     """-> [(key, text)]"""
     if not ev or ev[-1][0] != "end":
         return []                         # process died: reported through the sanitizer/crash path
-    if any(e[0] == "inflight-timeout" for e in ev):
+    if any(e[0] == "inflight-timeout" for e in ev) and not meta.get("reuse"):
         # the kernel still had bytes queued after the harness' 3 s real-time watchdog: no verdict for this case
         st["inflight_timeout_cases"] = st.get("inflight_timeout_cases", 0) + 1
         return []
@@ -268,7 +272,7 @@ def run(tier, seed):
         res.add_stat(k, v)
     res.evaluations = total
     return vlib.finish(res, tier, seed, RULE,
-                       required=["responses_checked", "requests_checked", "chunked_api_replies", "error_pages_checked",
+                       required=["reuse_after_partial_write", "responses_checked", "requests_checked", "chunked_api_replies", "error_pages_checked",
                                  "hdr_accepted", "hdr_rejected", "framing_chunked", "framing_length", "framing_close"],
                        assumptions=["the reference parser accepts bare LF as line end, replaces bare CR by SP and unfolds obs-fold (all allowed to a recipient by RFC 9112)",
                                     "request-target is treated as opaque bytes between first and last SP",
